@@ -1,37 +1,149 @@
 import SageModel.Proto
 import SageModel.Model.C12
+import SageModel.Model.C12Rle
 
 /-! Driver ops for C12.
 
-`specq [n label…] junk | [n u32…] passing`   labels: 1 = decoy, 0 = target; `junk` seeds the stale
-values of all other PSM fields on the Rust side and is ignored here: the result depends on the labels only.
+`specq    [n label…] junk | [n u32…] passing frame`   labels: 1 = decoy, 0 = target; `junk` seeds the stale
+values of all other PSM fields on the Rust side and is ignored here: the result depends on the labels
+only (`q_label_only`), and only `spectrum_q` is written (`psm_frame`; the reply's `frame` bit).
+
+`specqlab [n (label stale_q rank)…] | [n u32…] passing frame`   raw `Feature.label` values and explicit stale
+`spectrum_q` / rank: the record-level model `spectrumQPsm` runs on exactly these records.
+
+`specqrle [k (label runlen)…] junk | [m (u32 runlen)…] passing frame`   run-length encoded list; the
+model works on the runs (`qRle`, proven equal to the list model on the expansion: `qRle_eq`), with
+the code's `as f32` conversion of the two tallies (`r24`) — this op follows the real function through
+lists of more than 2²⁴ PSMs.
+
+What the property demands above 2²⁴: q = min over the cut-offs at or below the PSM of
+(decoys+1)/targets **from the exact counts**, capped at 1 (`qRle id`, = `qSpec` on the expansion by
+`qRle_exact` + `q_eq_spec`). The implementation returns an f32; the unchanged code converts both
+tallies with `as f32` (round to nearest even, exact up to 2²⁴) and divides once. Each conversion that
+can round moves the quotient by a relative ≤ 2⁻²⁴ (`r24_close`, `ratio_r24_close`), i.e. by at most
+one step of the f32 grid after the final rounding; so the spec accepts a q-value iff it is within
+`tol` f32 steps of the correctly rounded exact value, where
+`tol = [decoys + 1 > 2²⁴] + [targets > 2²⁴]` — 0 for every list whose tallies stay ≤ 2²⁴ (bit-exact),
+at most 2 otherwise. The model/implementation comparison (`agree`) is always exact.
 -/
 namespace Sage.C12
 open Sage.Proto
 
-/-- the single IEEE rounding `decoy as f32 / target as f32` of an exact ratio `num/den`
-    (exact while num, den < 2²⁴: both casts are exact and IEEE division is correctly rounded) -/
+/-- the single IEEE rounding `decoy as f32 / target as f32` of an exact ratio `num/den` of two
+    f32-representable naturals (the reduced numerator and denominator are then representable too:
+    both casts are exact and IEEE division is correctly rounded) -/
 def toF32 (q : Rat) : Float32 := Float32.ofNat q.num.toNat / Float32.ofNat q.den
+
+/-- correctly rounded (nearest, ties to even) f32 bit pattern of a positive rational, by integer
+    arithmetic only; `none` outside the normal range. Independent of `Float32`: the spec side uses
+    this, the model side `toF32`. -/
+def rnF32 (q : Rat) : Option Nat :=
+  if q.num ≤ 0 then none else
+  let a := q.num.toNat
+  let b := q.den
+  let e0 : Int := (a.log2 : Int) - (b.log2 : Int)     -- a/b ∈ (2^(e0-1), 2^(e0+1))
+  let ge : Bool := if e0 ≥ 0 then decide (b * 2 ^ e0.toNat ≤ a) else decide (b ≤ a * 2 ^ (-e0).toNat)
+  let e : Int := if ge then e0 else e0 - 1            -- 2^e ≤ a/b < 2^(e+1)
+  let sh : Int := 23 - e
+  let nd : Nat × Nat := if sh ≥ 0 then (a * 2 ^ sh.toNat, b) else (a, b * 2 ^ (-sh).toNat)
+  let m0 := nd.1 / nd.2
+  let rem := nd.1 % nd.2
+  let m := if 2 * rem < nd.2 then m0 else if nd.2 < 2 * rem then m0 + 1 else m0 + m0 % 2
+  let me : Nat × Int := if m == 2 ^ 24 then (2 ^ 23, e + 1) else (m, e)
+  let be := me.2 + 127
+  if be < 1 ∨ be > 254 then none else some (be.toNat * 2 ^ 23 + (me.1 - 2 ^ 23))
+
+def f32le001 (bits : Nat) : Bool := decide (Float32.ofBits bits.toUInt32 ≤ (0.01 : Float32))
+
+/-- merge adjacent runs with equal values, drop empty runs (the harness sends maximal runs) -/
+def mergeRuns (l : List (Nat × Nat)) : List (Nat × Nat) :=
+  (l.foldl (fun acc p =>
+    if p.2 == 0 then acc else
+    match acc with
+    | (b, k) :: tl => if b == p.1 then (b, k + p.2) :: tl else p :: acc
+    | [] => [p]) []).reverse
+
+def outRuns (l : List (Nat × Nat)) : String :=
+  " ".intercalate (toString l.length :: l.map (fun p => s!"{p.1} {p.2}"))
+
+def absDiff (a b : Nat) : Nat := if a ≤ b then b - a else a - b
+
+/-- walk two run lists in lockstep; `none` = every PSM's value is within `tol` f32 steps, else the
+    first offending position (`some n` with `n` = total length if the lengths differ) -/
+def alignRuns (tol : Nat) : Nat → Nat → List (Nat × Nat) → List (Nat × Nat) → Option Nat
+  | 0, pos, _, _ => some pos
+  | _ + 1, _, [], [] => none
+  | fuel + 1, pos, (_, 0) :: a, b => alignRuns tol fuel pos a b
+  | fuel + 1, pos, a, (_, 0) :: b => alignRuns tol fuel pos a b
+  | fuel + 1, pos, (x, ka) :: a, (y, kb) :: b =>
+    if absDiff x y > tol then some pos else
+    let k := min ka kb
+    alignRuns tol fuel (pos + k) ((x, ka - k) :: a) ((y, kb - k) :: b)
+  | _ + 1, pos, _, _ => some pos
+
+def two24 : Nat := 2 ^ 24
+
+/-- spec verdict for a plain list of impl q bit patterns -/
+def specList (labels : List Bool) (iq : List Nat) (ip : Nat) (modelQs : List Rat) : String :=
+  if iq.length != labels.length then "bad:length" else
+  -- the O(n²) definition itself for n ≤ 48; beyond that its proven equal (`q_eq_spec`), the model
+  let want : Nat → Rat := if labels.length ≤ 48 then qSpec labels else fun i => modelQs.getD i 0
+  let bad := (List.range labels.length).filter (fun i => iq[i]? != rnF32 (want i))
+  if !bad.isEmpty then s!"bad:q_ne_definition@{bad.head!}" else
+  let cnt := (iq.filter f32le001).length
+  if cnt != ip then "bad:passing_count" else "ok"
 
 def handle (op : String) (args impl : List String) : Option Reply :=
   match op with
   | "specq" => do
     let (labels, _junk) ← run (do let l ← list bool; let j ← nat; pure (l, j)) args
     let (qs, passing) := spectrumQ labels
-    let model := outList (fun q => outF32 (toF32 q)) qs ++ " " ++ toString passing
+    let model := outList (fun q => outF32 (toF32 q)) qs ++ " " ++ toString passing ++ " 1"
     -- spec evaluated on the implementation's reply
     let spec : String :=
-      match run (do let q ← list nat; let p ← nat; pure (q, p)) impl with
+      match run (do let q ← list nat; let p ← nat; let f ← nat; pure (q, p, f)) impl with
       | none => "na"
-      | some (iq, ip) =>
-        if iq.length != labels.length then "bad:length" else
-        -- the O(n²) definition itself for n ≤ 48; beyond that its proven equal (`q_eq_spec`), the model
-        let want : Nat → Rat := if labels.length ≤ 48 then qSpec labels else fun i => qs.getD i 0
-        let bad := (List.range labels.length).filter (fun i =>
-          iq[i]? != some (toF32 (want i)).toBits.toNat)
-        if !bad.isEmpty then s!"bad:q_ne_definition@{bad.head!}" else
-        let cnt := (iq.filter (fun b => decide (Float32.ofBits b.toUInt32 ≤ (0.01 : Float32)))).length
-        if cnt != ip then "bad:passing_count" else "ok"
+      | some (iq, ip, _) => specList labels iq ip qs
+    pure (exact model (" ".intercalate impl) spec)
+  | "specqlab" => do
+    let recs ← run (list (do let l ← int; let q ← nat; let r ← nat; pure (l, q, r))) args
+    let ps : List (Psm Nat) := recs.map (fun (l, q, r) => { label := l, spectrumQ := ratOfF32Bits q, rest := r })
+    let (out, passing) := spectrumQPsm id ps
+    let model := outList (fun p => match p.spectrumQ with | some q => outF32 (toF32 q) | none => "2139095040") out
+      ++ " " ++ toString passing ++ " " ++ outBool (out.map (fun p => (p.label, p.rest)) == ps.map (fun p => (p.label, p.rest)))
+    let legal := recs.all (fun (l, _, _) => l == 1 || l == -1)
+    let spec : String :=
+      if !legal then "na" else
+      match run (do let q ← list nat; let p ← nat; let f ← nat; pure (q, p, f)) impl with
+      | none => "na"
+      | some (iq, ip, _) => specList (ps.map isDecoy) iq ip (spectrumQ (ps.map isDecoy)).1
+    pure (exact model (" ".intercalate impl) spec)
+  | "specqrle" => do
+    let (runs, _junk) ← run (do let l ← list (do let b ← bool; let k ← nat; pure (b, k)); let j ← nat; pure (l, j)) args
+    let total := (runs.map (·.2)).sum
+    -- the model of the code: tallies converted with `as f32` (r24), one division, backward minimum
+    let pieces := (qRleAux r24 1 0 runs).1
+    let mruns := mergeRuns (pieces.map (fun p => ((toF32 p.1).toBits.toNat, p.2)))
+    let passing := ((mruns.filter (fun p => f32le001 p.1)).map (·.2)).sum
+    let model := outRuns mruns ++ " " ++ toString passing ++ " 1"
+    let spec : String :=
+      match run (do let q ← list (do let b ← nat; let k ← nat; pure (b, k)); let p ← nat; let f ← nat; pure (q, p, f)) impl with
+      | none => "na"
+      | some (iruns, ip, _) =>
+        if (iruns.map (·.2)).sum != total then "bad:length" else
+        let nDec := ((runs.filter (·.1)).map (·.2)).sum
+        let nTar := total - nDec
+        let tol := (if nDec + 1 > two24 then 1 else 0) + (if nTar > two24 then 1 else 0)
+        -- the property's definition from the exact counts: the O(n²) definition on the expansion for
+        -- total ≤ 48, else the RLE model with exact counters (`qRle_exact`, `q_eq_spec`)
+        let want : List (Rat × Nat) :=
+          if total ≤ 48 then (List.range total).map (fun i => (qSpec (expand runs) i, 1)) else (qRleAux id 1 0 runs).1
+        let wbits := want.map (fun p => ((rnF32 p.1).getD 0, p.2))
+        match alignRuns tol (2 * (wbits.length + iruns.length) + 4) 0 wbits iruns with
+        | some pos => s!"bad:q_ne_definition@{pos}"
+        | none =>
+          let cnt := ((iruns.filter (fun p => f32le001 p.1)).map (·.2)).sum
+          if cnt != ip then "bad:passing_count" else "ok"
     pure (exact model (" ".intercalate impl) spec)
   | _ => none
 
